@@ -128,6 +128,51 @@ Ltac unfired_tac unf :=
   shape_cases L;
   (unf H; unfold_state H; short_rewrites H; unfired_finish H).
 
+(* ---- only_pops is a preorder; load_items only pops ---- *)
+Lemma suffix_refl {A} (l : list A) : suffix l l.
+Proof. exists 0%nat. reflexivity. Qed.
+Lemma skipn_add {A} k' k : forall l : list A, skipn k' (skipn k l) = skipn (k + k') l.
+Proof.
+  induction k as [|k IH]; intros l; [reflexivity|].
+  destruct l as [|x r]; cbn [skipn Nat.add]; [destruct k'; reflexivity|apply IH].
+Qed.
+Lemma suffix_trans {A} (a b c : list A) : suffix b a -> suffix c b -> suffix c a.
+Proof. intros [k ->] [k' ->]. exists (k + k')%nat. apply skipn_add. Qed.
+Lemma suffix_tl {A} (x : A) (l : list A) : suffix l (x :: l).
+Proof. exists 1%nat. reflexivity. Qed.
+Lemma suffix_nil {A} (l : list A) : suffix l [] -> l = [].
+Proof. intros [k ->]. destruct k; reflexivity. Qed.
+
+Lemma only_pops_refl s : only_pops s s.
+Proof. unfold only_pops. repeat split; try apply suffix_refl. Qed.
+Lemma only_pops_trans a b c : only_pops a b -> only_pops b c -> only_pops a c.
+Proof.
+  unfold only_pops. intros H1 H2.
+  repeat match goal with H : _ /\ _ |- _ => destruct H end.
+  repeat split; try (eapply suffix_trans; eassumption); congruence.
+Qed.
+
+Lemma take_id_only_pops sid s x s1 : take_id sid s = Some (x, s1) -> only_pops s s1.
+Proof.
+  unfold take_id. intros H.
+  repeat match type of H with
+         | (if ?c then _ else _) = _ => destruct c
+         | match ?l with _ => _ end = _ => destruct l eqn:?; try discriminate H
+         end;
+  try discriminate H; inversion H; subst; unfold only_pops;
+  cbn [st_bool st_code st_exec st_float st_index st_int st_name st_bvec st_fvec st_ivec st_input st_output
+       st_graph st_bind st_cfg st_quote st_send set_bool set_code set_exec set_float set_int set_name set_bvec set_fvec set_ivec];
+  repeat split; try apply suffix_refl;
+  match goal with E : ?f s = _ :: ?r |- suffix ?r (?f s) => rewrite E; apply suffix_tl end.
+Qed.
+Lemma load_ids_only_pops ids : forall s, only_pops s (snd (load_ids ids s)).
+Proof.
+  induction ids as [|sid r IH]; intros s; cbn [load_ids]; [apply only_pops_refl|].
+  destruct (take_id sid s) as [[x s1]|] eqn:E; [|apply IH].
+  specialize (IH s1). destruct (load_ids r s1) as [xs s2]. cbn [snd] in *.
+  eapply only_pops_trans; [eapply take_id_only_pops; exact E|exact IH].
+Qed.
+
 Definition table_unfired (tbl : list (string * sem)) (ndt : list (string * need)) : Prop :=
   Forall (fun e => exists nd, nd_lookup ndt (fst e) = Some nd /\ unfired_ok nd (snd e)) tbl.
 
@@ -154,8 +199,43 @@ Section Unfired.
   Proof. unfold table_unfired, tbl_ivec. open_vec_table. Time utable_tac ltac:(unfired_tac unfold_vec). Time Qed.
   Lemma fvec_unfired : table_unfired tbl_fvec nd_fvec.
   Proof. unfold table_unfired, tbl_fvec. open_vec_table. Time utable_tac ltac:(unfired_tac unfold_vec). Time Qed.
+  (* LIST.SET: the three ways of lacking an operand; on an empty CODE stack the new record is dropped *)
+  Lemma list_set_unfired : unfired_ok [(FInt, 1); (FIvec, 1); (FCode, 1)]%nat (pure list_set).
+  Proof.
+    intros p w s w' s' L H. unfold pure, list_set, rbind in H.
+    destruct (st_int s) as [|idx ir] eqn:Ei; [inversion H; subst; split; [apply only_pops_refl|reflexivity]|].
+    assert (P1 : only_pops s (set_int s ir)).
+    { unfold only_pops. cbn [st_bool st_code st_exec st_float st_index st_int st_name st_bvec st_fvec st_ivec
+        st_input st_output st_graph st_bind st_cfg st_quote st_send set_int].
+      repeat split; try apply suffix_refl. rewrite Ei. apply suffix_tl. }
+    unfold load_items in H. cbn [st_ivec set_int] in H.
+    destruct (st_ivec s) as [|ids vr] eqn:Ev; [inversion H; subst; split; [exact P1|reflexivity]|].
+    (* both INTEGER and INTVECTOR are there: the CODE stack is empty *)
+    assert (Ec : st_code s = []).
+    { unfold lacking_in in L. cbn [existsb fst snd depth] in L. rewrite Ei, Ev in L. cbn [length Nat.ltb Nat.leb orb] in L.
+      destruct (st_code s); [reflexivity|discriminate L]. }
+    pose proof (load_ids_only_pops ids (set_ivec (set_int s ir) vr)) as P3.
+    destruct (load_ids ids (set_ivec (set_int s ir) vr)) as [items s2]. cbn [snd] in P3.
+    inversion H; subst. split; [|reflexivity].
+    assert (P2 : only_pops (set_int s ir) (set_ivec (set_int s ir) vr)).
+    { unfold only_pops. cbn [st_bool st_code st_exec st_float st_index st_int st_name st_bvec st_fvec st_ivec
+        st_input st_output st_graph st_bind st_cfg st_quote st_send set_int set_ivec].
+      repeat split; try apply suffix_refl. rewrite Ev. apply suffix_tl. }
+    pose proof (only_pops_trans _ _ _ P1 (only_pops_trans _ _ _ P2 P3)) as P.
+    assert (Ec2 : st_code s2 = []).
+    { destruct P as (_ & Hc & _). rewrite Ec in Hc. now apply suffix_nil. }
+    rewrite Ec2, l_replace_nil.
+    unfold only_pops in *. cbn [st_bool st_code st_exec st_float st_index st_int st_name st_bvec st_fvec st_ivec
+        st_input st_output st_graph st_bind st_cfg st_quote st_send set_code].
+    repeat match goal with H : _ /\ _ |- _ => destruct H end.
+    repeat split; try assumption. rewrite Ec. apply suffix_refl.
+  Qed.
+
   Lemma list_unfired : table_unfired tbl_list nd_list.
-  Proof. unfold table_unfired, tbl_list. Time utable_tac ltac:(unfired_tac unfold_listio2). Time Qed.
+  Proof.
+    unfold table_unfired, tbl_list.
+    Time utable_tac ltac:(first [exact list_set_unfired | unfired_tac unfold_listio2]).
+  Time Qed.
   Lemma io_unfired : table_unfired tbl_io nd_io.
   Proof. unfold table_unfired, tbl_io. Time utable_tac ltac:(unfired_tac unfold_listio2). Time Qed.
   Lemma graph_unfired : table_unfired tbl_graph nd_graph.
